@@ -472,6 +472,17 @@ def judge(s, package):
         F.append(("audio", "%d frames were written, re-open says '%s'" % (n // max(1, s.ch), s.reopen)))
     if s.read is not None and not s.read.startswith("ret=%d err=0 data=%s" % (n, hexs)):
         F.append(("audio", "audio read back differs from what was written: '%s'" % s.read[:100]))
+    # a valid item set before the audio on a container that stores the kind must be accepted
+    for (kind, late, ok, val, raw, nth) in s.calls:
+        if late or ok:
+            continue
+        if kind[0] == "str":
+            if s.cont in STR_SUPPORT and kind[1] in STR_TYPES and val is not None and (val or kind[1] == 3) and nth <= 32 and "str-slots" not in classes:
+                F.append(("refused-valid", "sf_set_string (%s, %d bytes) before the audio answered '%s'" % (STR_NAMES[kind[1]], len(val), raw)))
+        elif kind in ("bext", "cart", "cues", "inst"):
+            sup = {"bext": BEXT_SUPPORT, "cart": CART_SUPPORT, "cues": CUE_SUPPORT, "inst": INST_SUPPORT}[kind]
+            if s.cont in sup:
+                F.append(("refused-valid", "the SET call for %s before the audio answered '%s'" % (kind, raw.split(" data=")[0])))
     m = s.meta or {}
     for ty, v in exp["str"].items():
         if ty in exp.get("late_str", ()) and m.get(ty) is None:
